@@ -175,8 +175,7 @@ MSM_SIG_2 = {
     "groupsig3": (
         NCELL,
         {
-            "DF420",
-            "Half-cycle ambiguity indicator",
+            "DF420": "Half-cycle ambiguity indicator",
         },
     ),
 }
